@@ -7,6 +7,7 @@
 //! Exit codes: 0 property held on everything explored, 1 violation (VIOLATION line printed), 2 harness error.
 #![recursion_limit = "512"]
 mod c10;
+mod c10x;
 mod c18;
 mod c20;
 mod corpus;
@@ -272,6 +273,16 @@ fn c10_parent(args: &Args) {
         harness_error(&format!("determinism check failed: scenarios {recheck_mismatch:?} gave different event-log digests when re-run in a fresh process"));
     }
 
+    // E2 cross-check: the same scenarios through the shipped binary, real pipes and a stand-in prover.
+    let xn = args.u64("cross", if thorough { 400 } else { 48 });
+    let (xsum, xviol, xdisagree) = if xn > 0 { c10x::campaign(seed, xn, thorough, (workers as usize).min(12)) } else { Default::default() };
+    if !xdisagree.is_empty() {
+        for d in xdisagree.iter().take(5) {
+            eprintln!("{d}");
+        }
+        harness_error(&format!("E1/E2 disagreement on {} case(s): the simulated seams misrepresent the real ones", xdisagree.len()));
+    }
+
     // Aggregate.
     let mut agg = Agg::default();
     for r in &reports {
@@ -312,6 +323,13 @@ fn c10_parent(args: &Args) {
             harness_error(&format!("violation did not reproduce from its replay file {} (replay exit {:?})", path.display(), confirm.status.code()));
         }
     }
+    for (j, v) in xviol.iter().take(3) {
+        new_violations += 1;
+        let path = replays_dir.join(format!("C10-{seed}-x{j}-{}.json", v.class));
+        std::fs::write(&path, serde_json::to_string_pretty(&serde_json::json!({"property": "C10", "engine": "E2 cross-check (shipped binary, stand-in prover)", "seed": seed, "cross_case": j, "violation": v, "rerun": format!("vcheck c10 --seed {seed} --scenarios 0 --cross {}", j + 1)})).unwrap()).unwrap();
+        println!("violation (E2 cross-check) class={} case={j}\n  {}", v.class, v.detail);
+        println!("VIOLATION property=C10 replay={}", path.display());
+    }
     for (at, why) in &aborted {
         new_violations += 1;
         let path = replays_dir.join(format!("C10-{seed}-{at}-abort.json"));
@@ -325,7 +343,8 @@ fn c10_parent(args: &Args) {
 
     let wall = t0.elapsed().as_secs_f64();
     let evidence_path = args.get("evidence").map(PathBuf::from).unwrap_or_else(|| verif_home().join("evidence/C10.json"));
-    let ev = agg.evidence(seed, &tier_name, wall, new_violations, rechecked, capped, workers, scenarios);
+    let mut ev = agg.evidence(seed, &tier_name, wall, new_violations, rechecked, capped, workers, scenarios);
+    ev["coverage"]["e2_cross_check"] = serde_json::to_value(&xsum).unwrap();
     if let Some(p) = evidence_path.parent() {
         let _ = std::fs::create_dir_all(p);
     }
@@ -334,7 +353,7 @@ fn c10_parent(args: &Args) {
         "C10: {} scenarios ({} skipped), {} executions, {} distinct event-log digests, {} distinct completion orders, {:.0} executions/s, determinism re-checked on {} scenarios, {} violation(s); evidence {}",
         agg.scenarios, agg.skipped, agg.execs, agg.distinct_digests.len(), agg.distinct_orders.len(), agg.execs as f64 / wall.max(0.001), rechecked, new_violations, evidence_path.display()
     );
-    if agg.execs == 0 {
+    if agg.execs == 0 && xsum.runs == 0 {
         harness_error("no execution ran");
     }
     std::process::exit(if new_violations > 0 { 1 } else { 0 });
